@@ -120,3 +120,55 @@ def symmetric_ends(faces):
     g = f[0] + (f[-1] - f[0]) * np.concatenate([[0.0], np.cumsum(w)]) / w.sum()
     g[-1] = f[-1]
     return g.tolist()
+
+
+@st.composite
+def problems(draw, classes=None, nmax=4, nmax3=3, periodic=True, p_periodic=0.25, schemes=SCHEMES, need_D=True,
+             sink='maybe', bc_kinds=('D', 'N', 'R'), k2_exclude=True, alpha_cell=True, gamma=True, spacings=None):
+    """generic well-posed transient problem"""
+    from .common import GRIDS, is_periodic
+    kw = {}
+    if spacings is not None:
+        kw['spacings'] = spacings
+    g = draw(gen.grids(classes=classes or GRIDS, nmax=nmax, nmax3=nmax3, **kw))
+    name = g['name']
+    d = dims_of(g['faces'])
+    bc = draw(gen.bcs(name, d, kinds=bc_kinds, periodic=periodic, p_periodic=p_periodic))
+    faces = [list(f) for f in g['faces']]
+    if k2_exclude:
+        for ax, ent in enumerate(bc):
+            if is_periodic(ent):
+                faces[ax] = symmetric_ends(faces[ax])
+    P = dict(name=name, faces=faces, bc=bc, spacing=g['spacing'])
+    P['init'] = draw(gen.cell_interior(d))
+    P['scheme'] = draw(st.sampled_from(list(schemes)))
+    P['D'] = draw(gen.diffusivity(d, zeros=False)) if (need_D or draw(st.booleans())) else None
+    P['u'] = draw(gen.face_field(d))
+    P['FL'] = draw(gen.limiter_names)
+    if alpha_cell and draw(st.booleans()):
+        P['alpha'] = draw(gen.arrays(d, styles=('pos',), lo=0.2, hi=3.0, direct=False))
+    else:
+        P['alpha'] = draw(st.sampled_from([1.0, 0.05, 20.0]))
+    if sink == 'always' or (sink == 'maybe' and draw(st.booleans())):
+        P['beta'] = draw(gen.arrays(d, styles=('pos', 'const_b'), lo=0.1, hi=2.0, direct=False)) if False else \
+            draw(gen.arrays(d, styles=('pos',), lo=0.1, hi=2.0, direct=False))
+    else:
+        P['beta'] = None
+    P['gamma'] = draw(gen.cell_interior(d)) if (gamma and draw(st.booleans())) else None
+    P['dt'] = 10.0 ** draw(st.floats(-3, 2))
+    P['steps'] = draw(st.integers(1, 3))
+    return P
+
+
+def has_dirichlet_or_robin(P):
+    """a side that pins the level of the solution (the axis r = 0 has zero area: its condition pins nothing)"""
+    from .common import is_periodic
+    for ax, e in enumerate(P['bc']):
+        if is_periodic(e):
+            continue
+        for s in ('lo', 'hi'):
+            if s == 'lo' and AXES[P['name']][ax] == 'r' and P['faces'][ax][0] == 0.0:
+                continue
+            if e[s]['kind'] in ('D', 'R'):
+                return True
+    return False
